@@ -55,15 +55,20 @@ TARGET_ARGS = {"model": ["generate", "model"], "server": ["generate", "server", 
 MODE_ARGS = {"minimal": [], "full": ["--with-flatten=full"], "expand": ["--with-expand"]}
 
 
-def norm_err(txt):
+def norm_errs(txt):
+    """one (file, message) per generated file the compiler complains about: its first error, normalised"""
+    out = {}
     for l in txt.splitlines():
         l = l.strip()
-        if not l or l.startswith("#") or l.startswith("go: "):
+        m = re.match(r"^([^ :]+\.go):\d+:\d+: (.*)$", l)
+        if not m:
             continue
-        l = re.sub(r"^[^ :]+\.go:\d+:\d+: ", "", l)
-        l = re.sub(r"\b[A-Za-z0-9_]*(?:Thing|thing|Private|Model|Enum|Url|HTTP)[A-Za-z0-9_]*\b", "<id>", l)
-        return l[:110]
-    return "unknown"
+        f = os.path.basename(m.group(1))
+        if f in out:
+            continue
+        msg = re.sub(r"\b[A-Za-z0-9_]*(?:Thing|thing|Private|Model|Enum|Url|HTTP)[A-Za-z0-9_]*\b", "<id>", m.group(2))
+        out[f] = msg[:110]
+    return sorted(out.items()) or [("?", "unknown")]
 
 
 def check(run, replay=None):
@@ -124,8 +129,8 @@ def check(run, replay=None):
         evs = [dict(ev="Generate", i=i, exit=g.returncode, errorPrinted=len(g.stderr.strip()) > 0, mustSucceed=c["kind"] == "doc",
                     err=g.stderr[-400:] if g.returncode else "")]
         if g.returncode == 0:
-            b = run.sh(["go", "build", "./..."], cwd=mod, check=False, timeout=1800)
-            evs.append(dict(ev="Build", i=i, ok=b.returncode == 0, err=b.stderr[:1500]))
+            b = run.sh(["go", "build", "-gcflags=-e", "./..."], cwd=mod, check=False, timeout=1800)
+            evs.append(dict(ev="Build", i=i, ok=b.returncode == 0, err=b.stderr[:6000]))
         else:
             evs.append(dict(ev="NoBuild", i=i))
         shutil.rmtree(mod, ignore_errors=True)
@@ -145,9 +150,15 @@ def check(run, replay=None):
             seen.add(e["line"])
             ev = events[e["line"] - 1]; c = cases[ev["i"]]
             if c["kind"] == "name":
-                sig = "%s | %s named %r, target %s, %s" % (e["why"], c["pos"], NAMES[c["cls"]], c["target"], c["mode"])
+                # one defect per (position, name, target): the pre-processing mode does not take part in name mangling
+                sig = "%s | %s named %r, target %s" % (e["why"], c["pos"], NAMES[c["cls"]], c["target"])
             else:
-                sig = "%s | document %s, target %s, %s, options %s | %s" % (e["why"], c["doc"], c["target"], c["mode"], "+".join(sorted(c["opts"])) or "none", norm_err(ev.get("err", "")))
+                # one defect per (document, target, generated file, its first compiler error): mode and option
+                # switches are in the detail
+                for f, msg in norm_errs(ev.get("err", "")):
+                    sig = "%s | document %s, target %s | %s: %s" % (e["why"], c["doc"], c["target"], f, msg)
+                    run.violations.append(dict(signature=sig, detail=dict(case=c, err=ev.get("err", "")[:900])))
+                continue
             run.violations.append(dict(signature=sig, detail=dict(case=c, err=ev.get("err", "")[:900])))
     refused = sum(1 for e in events if e["ev"] == "Generate" and e["exit"] != 0)
     cov = dict(states=gen["states"], transitions=gen["transitions"], traces_validated_against_impl=len(cases), evaluations=len(cases),
